@@ -8,7 +8,21 @@
    "(x_with_n_joins)" name built from that item, aliased select items are wrapped, parentheses leave no node).
    The places where the parser's representation choices enter are single definitions: [join_left],
    [synthetic_left], [ast_niladic] / [items_niladic], [wrap_alias], [wrap_with], [ob_wrap], [shared_copy].
-   [items] is the specification: the names written in table / column / function positions. *)
+   [items] is the specification: the names written in table / column / function positions.
+
+   Besides queries and DML the grammar has the statements that CARRY a query or an expression without being
+   queries: CREATE [OR REPLACE] VIEW name [(cols)] AS query, CREATE MATERIALIZED VIEW name [(cols)] AS query,
+   CREATE [UNIQUE] INDEX name ON table (keys) [WHERE cond], CREATE TABLE name (column type [DEFAULT e] [CHECK (c)] ...,
+   [CHECK (c)] ...), EXPLAIN / DESCRIBE query.  (CREATE TABLE name AS query is not accepted by the parser.)  The names such a statement
+   DEFINES or designates as plain strings (view / index / table name, view column list, index keys and the table
+   an index is built on, column definitions, key lists of table constraints) are not table / column positions:
+   the property lists FROM lists, joins, DML targets and USING, the extractors document FROM, JOIN, sub-queries,
+   CTEs and INSERT/UPDATE/DELETE; what IS written in positions are the names inside the carried query and inside
+   the carried expressions (partial-index predicate, DEFAULT values, CHECK conditions).
+
+   Every definition below is structurally recursive, every theorem about [mstmt] is proved by the mutual
+   structural induction [mgrammar_ind]: there is no bound on the depth of a statement or of its tree (a flat
+   chain a OR b OR c ... of n operands is the left-deep [MBin] of depth n). *)
 From Coq Require Import List String Ascii NArith Bool DecimalString.
 From GV Require Import Model.Walk Model.QAst Model.Extract.
 Import ListNotations.
@@ -56,6 +70,16 @@ with mmwhens :=
 | MWUpdate (c : mopt) (sets : msets) (r : mmwhens)
 | MWInsert (c : mopt) (cols : list name) (vals : mexprs) (r : mmwhens)
 | MWDelete (c : mopt) (r : mmwhens)
+with mcolcons :=                              (* column constraints of a column definition *)
+| XNil
+| XPlain (ty : string) (r : mcolcons)         (* NOT NULL, NULL, UNIQUE, PRIMARY KEY: no expression *)
+| XDefault (e : mexpr) (r : mcolcons)
+| XCheck (c : mexpr) (r : mcolcons)
+with mcoldefs := DNil | DCons (n : name) (ty : string) (cs : mcolcons) (r : mcoldefs)
+with mtabcons :=                              (* table constraints *)
+| YNil
+| YPlain (ty : string) (cols : list string) (r : mtabcons)   (* UNIQUE (keys), PRIMARY KEY (keys) *)
+| YCheck (c : mexpr) (r : mtabcons)
 with mstmt :=
 | MSelect (w : mctes) (cols : mitems) (from : mtrefs) (joins : mjoins) (wh : mopt) (gb : mexprs) (hv : mopt) (ob : mexprs)
 | MSetOp (op : string) (l r : mstmt)
@@ -63,7 +87,12 @@ with mstmt :=
 | MInsertQ (w : mctes) (t : tname) (cols : mexprs) (q : mstmt)
 | MUpdate (w : mctes) (t : tname) (asg : massigns) (from : mtrefs) (wh : mopt)
 | MDelete (w : mctes) (t : tname) (us : mtrefs) (wh : mopt)
-| MMerge (tgt src : mtref) (on : mexpr) (ws : mmwhens).
+| MMerge (tgt src : mtref) (on : mexpr) (ws : mmwhens)
+| MCreateView (n : tname) (cols : list string) (q : mstmt)            (* CREATE [OR REPLACE] [TEMPORARY] VIEW n [(cols)] AS q *)
+| MCreateMView (n : tname) (cols : list string) (q : mstmt)           (* CREATE MATERIALIZED VIEW n [(cols)] AS q *)
+| MCreateIndex (n t : tname) (keys : list name) (wh : mopt)           (* CREATE [UNIQUE] INDEX n ON t (keys) [WHERE wh] *)
+| MCreateTable (n : tname) (cols : mcoldefs) (tcs : mtabcons)         (* CREATE TABLE n (cols, tcs) *)
+| MExplain (q : mstmt).                                               (* EXPLAIN q / DESCRIBE q *)
 
 Scheme mexpr_mi := Induction for mexpr Sort Prop
 with mexprs_mi := Induction for mexprs Sort Prop
@@ -77,9 +106,12 @@ with mctes_mi := Induction for mctes Sort Prop
 with massigns_mi := Induction for massigns Sort Prop
 with msets_mi := Induction for msets Sort Prop
 with mmwhens_mi := Induction for mmwhens Sort Prop
+with mcolcons_mi := Induction for mcolcons Sort Prop
+with mcoldefs_mi := Induction for mcoldefs Sort Prop
+with mtabcons_mi := Induction for mtabcons Sort Prop
 with mstmt_mi := Induction for mstmt Sort Prop.
 Combined Scheme mgrammar_ind from mexpr_mi, mexprs_mi, mwhens_mi, mopt_mi, mitems_mi, mtref_mi, mtrefs_mi,
-  mjoins_mi, mctes_mi, massigns_mi, msets_mi, mmwhens_mi, mstmt_mi.
+  mjoins_mi, mctes_mi, massigns_mi, msets_mi, mmwhens_mi, mcolcons_mi, mcoldefs_mi, mtabcons_mi, mstmt_mi.
 
 (* ---- the prescribed tree ---- *)
 Definition identA (q n : string) := mkA n q "" "" "" "" [].
@@ -189,6 +221,24 @@ with ast_mwhens (l : mmwhens) : list qn :=
   | MWDelete c r =>
       QN KMergeWhen (opA "MATCHED") [(SCond, ast_opt c); (SAction, [QN KMergeAction (opA "DELETE") []])] :: ast_mwhens r
   end
+with ast_colcons (l : mcolcons) : list qn :=
+  match l with
+  | XNil => []
+  | XPlain ty r => QN KColConstraint (opA ty) [] :: ast_colcons r
+  | XDefault e r => QN KColConstraint (opA "DEFAULT") [(SDefault, [ast_expr e])] :: ast_colcons r
+  | XCheck c r => QN KColConstraint (opA "CHECK") [(SCheck, [ast_expr c])] :: ast_colcons r
+  end
+with ast_coldefs (l : mcoldefs) : list qn :=
+  match l with
+  | DNil => []
+  | DCons n ty cs r => QN KColumnDef (mkA (nstr n) "" "" "" ty "" []) [(SConstraints, ast_colcons cs)] :: ast_coldefs r
+  end
+with ast_tabcons (l : mtabcons) : list qn :=
+  match l with
+  | YNil => []
+  | YPlain ty cols r => QN KTabConstraint (mkA "" "" ty "" "" "" cols) [] :: ast_tabcons r
+  | YCheck c r => QN KTabConstraint (opA "CHECK") [(SCheck, [ast_expr c])] :: ast_tabcons r
+  end
 with ast_stmt (s : mstmt) : qn :=
   match s with
   | MSelect w cols from joins wh gb hv ob =>
@@ -218,7 +268,20 @@ with ast_stmt (s : mstmt) : qn :=
           (SUsing, ast_trefs us); (SWhere, ast_opt wh)]
   | MMerge tgt src on ws =>
       QN KMerge noA [(STarget, [ast_tref tgt]); (SSource, [ast_tref src]); (SCond, [ast_expr on]); (SWhens, ast_mwhens ws)]
+  | MCreateView n cols q => QN KCreateView (mkA (tstr n) "" "" "" "" "" cols) [(SQuery, [ast_stmt q])]
+  | MCreateMView n cols q => QN KCreateMView (mkA (tstr n) "" "" "" "" "" cols) [(SQuery, [ast_stmt q])]
+  | MCreateIndex n t keys wh =>
+      QN KCreateIndex (mkA (tstr n) (tstr t) "" "" "" "" [])
+         [(SColumns, map (fun k => QN KIndexCol (nameA (nstr k)) []) keys); (SWhere, ast_opt wh)]
+  | MCreateTable n cols tcs =>
+      QN KCreateTable (nameA (tstr n)) [(SColumns, ast_coldefs cols); (SConstraints, ast_tabcons tcs)]
+  | MExplain q => QN KDescribe (nameA "SELECT") [(SQuery, [ast_stmt q])]      (* DescribeStatement{TableName: "SELECT", Query: q} *)
   end.
+
+(* what the parser built for EXPLAIN q before /repo kept the query (DescribeStatement.Query): the query was parsed
+   and thrown away.  Kept to state what the repair removed ([C15_explain_query_dropped_refuted],
+   [C16_explain_query_dropped_refuted]). *)
+Definition explain_pinned : qn := QN KDescribe (nameA "SELECT") [].
 
 (* ---- the specification: names written in table / column / function positions ---- *)
 
@@ -267,6 +330,21 @@ with items_mwhens (l : mmwhens) : list item :=
   | MWInsert c cols vals r => items_opt c ++ map (fun n => ICol "" (nstr n)) cols ++ items_exprs vals ++ items_mwhens r
   | MWDelete c r => items_opt c ++ items_mwhens r
   end
+with items_colcons (l : mcolcons) : list item :=
+  match l with
+  | XNil => []
+  | XPlain _ r => items_colcons r
+  | XDefault e r => items_expr e ++ items_colcons r
+  | XCheck c r => items_expr c ++ items_colcons r
+  end
+with items_coldefs (l : mcoldefs) : list item :=
+  match l with DNil => [] | DCons _ _ cs r => items_colcons cs ++ items_coldefs r end   (* the column is defined, not referenced *)
+with items_tabcons (l : mtabcons) : list item :=
+  match l with
+  | YNil => []
+  | YPlain _ _ r => items_tabcons r                                                  (* key lists designate, as plain strings *)
+  | YCheck c r => items_expr c ++ items_tabcons r
+  end
 with items (s : mstmt) : list item :=
   match s with
   | MSelect w cols from joins wh gb hv ob =>
@@ -278,6 +356,12 @@ with items (s : mstmt) : list item :=
   | MUpdate w t asg from wh => items_ctes w ++ ITable (tstr t) :: items_assigns asg ++ items_trefs from ++ items_opt wh
   | MDelete w t us wh => items_ctes w ++ ITable (tstr t) :: items_trefs us ++ items_opt wh
   | MMerge tgt src on ws => items_tref tgt ++ items_tref src ++ items_expr on ++ items_mwhens ws
+  (* the view / index / table name is DEFINED, the view column list names the view's columns, the index keys and
+     the table the index is built on are designated as plain strings: none of them is a table / column position *)
+  | MCreateView _ _ q | MCreateMView _ _ q => items q
+  | MCreateIndex _ _ _ wh => items_opt wh
+  | MCreateTable _ cols tcs => items_coldefs cols ++ items_tabcons tcs
+  | MExplain q => items q
   end.
 
 Definition tables_written (s : mstmt) : list string :=
@@ -310,7 +394,15 @@ Definition modelled_edges : list (kind * slot) :=
    (KCase, SValue); (KCase, SWhens); (KCase, SElse); (KWhen, SCond); (KWhen, SResult);
    (KIn, SExpr); (KIn, SList); (KIn, SSubquery);
    (KBetween, SExpr); (KBetween, SLower); (KBetween, SUpper);
-   (KExists, SSubquery); (KSubquery, SSubquery); (KCast, SExpr); (KAliased, SExpr)].
+   (KExists, SSubquery); (KSubquery, SSubquery); (KCast, SExpr); (KAliased, SExpr);
+   (KCreateView, SQuery); (KCreateMView, SQuery); (KCreateIndex, SWhere);
+   (KCreateTable, SColumns); (KCreateTable, SConstraints); (KColumnDef, SConstraints);
+   (KColConstraint, SDefault); (KColConstraint, SCheck); (KTabConstraint, SCheck); (KDescribe, SQuery)].
+
+(* the node kinds of the statements of the grammar: the roots an analysis of a parsed text starts from *)
+Definition stmt_kinds : list kind :=
+  [KSelect; KSetOp; KInsert; KUpdate; KDelete; KMerge; KCreateView; KCreateMView; KCreateIndex; KCreateTable; KDescribe].
+Definition roots_cover (root : kind -> bool) : bool := forallb root stmt_kinds.
 Definition edge_eqb (a b : kind * slot) : bool := kind_eqb (fst a) (fst b) && slot_eqb (snd a) (snd b).
 Definition em_covers (em : kind -> slot -> bool) : bool :=
   forallb (fun e : kind * slot => em (fst e) (snd e)) modelled_edges.
